@@ -104,3 +104,40 @@ package phase0
 //@   trusted
 //@   requires attestation != nil
 //@   ensures err == nil ==> indexed != nil
+
+// ---------------------------------------------------------------- slashability predicates (C12, C03)
+// is_slashable_attestation_data: double vote (different data, same target epoch) or surround vote
+//@ func IsSurroundVote(a, b) r
+//@   property C12
+//@   opt noalloc
+//@   requires a != nil && b != nil
+//@   ensures r == (a.Source.Epoch < b.Source.Epoch && a.Target.Epoch > b.Target.Epoch)
+
+//@ func IsDoubleVote(a, b) r
+//@   property C12
+//@   opt noalloc
+//@   requires a != nil && b != nil
+//@   ensures r == (*a != *b && a.Target.Epoch == b.Target.Epoch)
+
+//@ func IsSlashableAttestationData(a, b) r
+//@   property C12
+//@   opt noalloc
+//@   requires a != nil && b != nil
+//@   ensures r == ((*a != *b && a.Target.Epoch == b.Target.Epoch) || (a.Source.Epoch < b.Source.Epoch && b.Target.Epoch < a.Target.Epoch))
+
+// is_slashable_validator: not slashed and activation_epoch <= epoch < withdrawable_epoch
+//@ sort ValI = common.Validator
+//@ func IsSlashable(v, epoch) (r, err)
+//@   property C12
+//@   opt noalloc
+//@   requires v != nil
+//@   ensures err == nil ==> r == (!v_slashed(v) && v_act(v) <= epoch && epoch < v_wd(v))
+//@   ensures err != nil ==> !r
+
+// max count, non-empty, sorted, unique: assumed predicate (sort.IsSorted is outside the repository)
+//@ ufun idxset_ok(SpecP, IdxAttT) bool
+//@ func ValidateIndexedAttestationIndicesSet(spec, indexedAttestation) (set, err)
+//@   trusted
+//@   opt noalloc
+//@   ensures (err == nil) == idxset_ok(spec, *indexedAttestation)
+//@   ensures err == nil ==> eqseq(set, indexedAttestation.AttestingIndices)
